@@ -4,6 +4,7 @@ import (
 	"fmt"
 	"github.com/metrico/qryn/reader/logql/logql_transpiler_v2/shared"
 	sql "github.com/metrico/qryn/reader/utils/sql_select"
+	"strconv"
 	"strings"
 	"time"
 )
@@ -176,6 +177,13 @@ func (u *UnionAll) String(ctx *sql.Ctx, opts ...int) (string, error) {
 	}
 
 	return strings.Join(selects, " UNION ALL "), nil
+}
+
+// durationSeconds renders a range duration as the divisor of the rate functions: the exact
+// number of seconds, down to the nanosecond (Milliseconds()/1000 drops the sub-millisecond
+// part and is 0 for ranges below 1ms).
+func durationSeconds(d time.Duration) string {
+	return strconv.FormatFloat(float64(d.Nanoseconds())/1e9, 'f', 9, 64)
 }
 
 func FormatFromDate(from time.Time) string {
